@@ -194,6 +194,7 @@ def all_scenarios():
         Scn("tls13-tickets", T13, kx="tls13", s={"ticketKeys": [b"\x11" * 32], "ticket_count": 2}),
         Scn("tls12-resume", T12, kx="ecdhe_rsa", prep=prep_resume, cost=2),
         Scn("tls12-tickets", T12, kx="ecdhe_rsa", s={"ticketKeys": [b"\x11" * 32]}),
+        Scn("tls12-resume-sni", T12, kx="ecdhe_rsa", prep=prep_resume, cost=2, ckw={"serverName": "example.com"}),
         Scn("tls12-ticket-resume", T12, kx="ecdhe_rsa", prep=prep_resume, cost=2, s={"ticketKeys": [b"\x11" * 32]}),
         Scn("tls12-srp", T12, kind="srp", kx="srp"),
         Scn("tls12-anon", T12, kind="anon", kx="dh_anon"),
@@ -1260,6 +1261,10 @@ def model_correspondence(ctx, J, bases):
     decompress_correspondence(ctx, bases)
     sh_correspondence(ctx, J, bases)
     ch_correspondence(ctx, J, ctx.pick(500, 6000))
+    from . import c08_flights as FL
+    FL.hrr_stream(ctx, J, ctx.pick(500, 6000))
+    FL.resume_stream(ctx, J, bases)
+    FL.flight_stream(ctx, J, bases, ctx.pick(25, 400))
 
 
 def run_input(ctx, J, inp):
@@ -1297,6 +1302,20 @@ def run_input(ctx, J, inp):
     if stage == "ch-features":
         impl, L = run_ch_features(inp["features"])
         return judge(J, L, "server", "client_hello features", inp)
+    if stage == "flight":
+        scn = scns[inp["scn"]]
+        ctxm = dict(inp["ctxm"])
+        ctxm["version"] = tuple(ctxm["version"])
+        muts = {int(k): v for k, v in inp["muts"].items()}
+        L, applied, peak = run_handshake_case(scn, inp["side"], muts, None, ctxm)
+        return judge(J, L, "server" if inp["side"] == "client" else "client", "flight " + inp.get("cls", ""), inp)
+    if stage == "hrr":
+        from . import c08_flights as FL
+        f1 = inp["f1"]
+        if isinstance(f1.get("_sid"), str):
+            f1["_sid"] = bytes.fromhex(f1["_sid"])
+        L, info = FL.run_hrr_case(f1, inp["second"])
+        return judge(J, L, "server", "HelloRetryRequest flow", inp)
     return None
 
 
@@ -1327,7 +1346,7 @@ def replay(ctx, rep):
     tracemalloc.start(1)
     try:
         out = run_input(ctx, J, inp)
-        if out is None and stage not in ("handshake", "raw", "post", "ch-features"):
+        if out is None and stage not in ("handshake", "raw", "post", "ch-features", "flight", "hrr"):
             print("replay of stage %r: re-running the whole check" % stage)
             Mem.mode = "rss"
             run(ctx)
@@ -1433,10 +1452,13 @@ def ch_feature_bytes(f):
             exts = [("psk", e)] * copies + exts
             if not [x for x in exts if x[0] != "psk"]:
                 exts.append(("pad", ext_bytes(21, b"\x00")))
-    suites = b"" if f["se"] else b"\x13\x01\xc0\x2f\x00\x2f\x00\x9c"
+    suites = b"" if f["se"] else (b"\x13\x01\xc0\x2f\x00\x2f" if f.get("_suites_alt") else b"\x13\x01\xc0\x2f\x00\x2f\x00\x9c")
     comp = b"" if f["ce"] else (b"\x00" if f["nc"] else b"\x01")
-    body = f["cv"].to_bytes(2, "big") + b"\x5a" * 32 + b"\x00" + len(suites).to_bytes(2, "big") + suites + \
-        bytes([len(comp)]) + comp
+    sid = f.get("_sid", b"")
+    body = f["cv"].to_bytes(2, "big") + bytes([f.get("_random", 0x5a)]) * 32 + bytes([len(sid)]) + sid + \
+        len(suites).to_bytes(2, "big") + suites + bytes([len(comp)]) + comp
+    for (t, b, where) in f.get("_extra_exts", []):
+        exts.insert(min(where, len(exts)) if where >= 0 else max(0, len(exts) + where), ("extra", ext_bytes(t, b)))
     eb = b"".join(e for _, e in exts)
     body += len(eb).to_bytes(2, "big") + eb
     if f["pe"]:
